@@ -17,6 +17,8 @@ for d in sorted(glob.glob(f"/verif/seeded/{P}-*/")):
         c = {"caught": st["caught"], "caught_with_failing_input": st["with_failing_input"]}
     if not c.get("caught"):
         missed.append((sid, "MISSED (quick and thorough silent)", m))
+    elif (not st) and "check_thorough" in m.get("confirmation", {}) or (st and st.get("tier") == "thorough"):
+        missed.append((sid, "caught only by the THOROUGH tier (quick tier silent) — make the quick tier catch it if that is cheap", m))
     elif not c.get("caught_with_failing_input"):
         missed.append((sid, "caught only WITHOUT a failing input (no-failing-input-found) — try to find the failing input too", m))
 out.append("## Seeded defects the current check misses\n")
